@@ -530,7 +530,14 @@ def _process_internal_events_without_default_matchers(
 
             source_flow = state.flow_states[event.arguments["source_flow_instance_uid"]]
             is_activated_child_flow = flow_id == source_flow.flow_id
-            if (
+            if not is_activated_child_flow and source_flow.status in (
+                FlowStatus.STOPPING,
+                FlowStatus.STOPPED,
+            ):
+                # The flow that wanted to start (or activate) this flow was aborted after
+                # the event had been created: a flow started now would outlive its parent.
+                pass
+            elif (
                 is_activated_child_flow
                 and event.arguments.get("activated", None)
                 and source_flow.activated == 0
